@@ -42,6 +42,7 @@ func init() {
 			{ID: "C11-R16", Title: "the reset before RunCode is decided by what is loaded", Floor: 1, Run: resetLooksAtWhatIsLoaded},
 			{ID: "C11-R17", Title: "configuration errors are not discarded", Floor: 1, Run: configurationErrorsAreNotDiscarded},
 			{ID: "C11-R18", Title: "loaded code entries are fresh (shared with C07)", Floor: 2, Run: loadedCodeEntriesAreFresh},
+			{ID: "C11-R19", Title: "supplied globals replace the old ones", Floor: 1, Run: suppliedGlobalsReplaceTheOldOnes},
 		},
 	})
 }
